@@ -16,8 +16,8 @@ import (
 // PrepareTLSServerConfig (handed out through GetServerTLSConfig's Clone for every connection), ONE client
 // configuration from PrepareTLSClientConfig+GetClientTLSConfig reused for several connections - and is fed with the
 // vector's SEQUENCE of certificates; every call's verdict is compared with the table's verdict for that certificate.
-// Certificates A and B differ in nothing but identity (so consecutive calls differ in exactly the pin condition);
-// X differs from B in the chain only.
+// Certificates A, B and C differ in nothing but identity (so consecutive calls differ in exactly the pin condition;
+// C is never pinned); X differs from them in the chain only.
 
 type seqPin struct {
 	Alg string `json:"alg"`
@@ -55,6 +55,7 @@ func runSeq(env *tlsEnv, n *netceptor.Netceptor, v *tlsVec, idx int) {
 	for name, spec := range map[string]certSpec{
 		"A": {Issuer: "trusted", Validity: "valid", Usage: "both", RNames: []string{e}, DNames: []string{e}, Enc: enc, Key: 0, Nonce: "A"},
 		"B": {Issuer: "trusted", Validity: "valid", Usage: "both", RNames: []string{e}, DNames: []string{e}, Enc: enc, Key: 0, Nonce: "B"},
+		"C": {Issuer: "trusted", Validity: "valid", Usage: "both", RNames: []string{e}, DNames: []string{e}, Enc: enc, Key: 0, Nonce: "C"},
 		"X": {Issuer: "otherca", Validity: "valid", Usage: "both", RNames: []string{e}, DNames: []string{e}, Enc: enc, Key: 0, Nonce: "B"},
 	} {
 		l, err := env.p.get(spec)
